@@ -1,6 +1,7 @@
 """
-State-graph comparison of the serializer at statement granularity (DESIGN.md 4.3):
-breadth-first walk on real Stream objects over a slice universe; the set of reachable idle states is compared with
+State-graph comparison of the serializer at the granularity of one public call (DESIGN.md 4.3):
+breadth-first walk on real Stream objects over a slice universe (triple / quad / namespace_declaration / graph(g, 0..k triples),
+refusals included); the set of reachable idle states is compared with
 TLC's, and every real transition is re-executed by TLC on the model (spec/TraceWriter.tla) and compared.
 """
 from __future__ import annotations
@@ -35,7 +36,7 @@ def make_stream(c: dict):
     ptype = c["PType"]
     mn = max(c["MaxN"], 8)
     cfg = impl.default_cfg(integ="generic", sclass={1: "triple", 2: "quad", 3: "graph"}[ptype], ltype=(1 if ptype == 1 else 2), delimited=True,
-                           frame_size=(c["FrameSize"] or 10**6), preset=(mn, c["MaxP"], c["MaxD"]), gen=True, star=True)
+                           frame_size=(c["FrameSize"] or 10**6), preset=(mn, c["MaxP"], c["MaxD"]), gen=True, star=True, nsdecl=bool(c.get("NsDecl")))
     stream = impl.make_stream(cfg)
     if c["MaxN"] < 8:                       # model-only name table sizes: the real encoder takes any size, only LookupPreset refuses < 8
         stream.encoder.names = LookupEncoder(lookup_size=c["MaxN"])
@@ -55,11 +56,29 @@ def key_of(stream, c, back):
             "rep": rep, "gcur": ["none"], "buf": (len(stream.flow) if c["FrameSize"] else 0)}
 
 
-def walk(c: dict, pools: dict, max_transitions=10**7):
-    """BFS on real Stream objects. Returns (idle state keys, transitions [{id, from, st, rows, to}])."""
+def calls_of(c: dict, pools: dict, body_max: int):
+    """The public calls of the slice, each as the list of model ops it stands for."""
     ptype = c["PType"]
     slots = "spog"[: (4 if ptype == 2 else 3)]
-    statements = list(itertools.product(*[pools[s] for s in slots]))
+    statements = [list(st) for st in itertools.product(*[pools[s] for s in slots])]
+    calls = []
+    if ptype == 3:
+        for g in pools["g"]:
+            for k in range(body_max + 1):
+                for body in itertools.product(statements, repeat=k):
+                    calls.append([{"op": "gs", "g": g}] + [{"op": "stmt", "st": st} for st in body] + [{"op": "ge"}])
+    else:
+        calls += [[{"op": "stmt", "st": st}] for st in statements]
+    if c.get("NsDecl"):
+        calls += [[{"op": "ns", "ns": list(ns)}] for ns in pools.get("ns", [])]
+    return calls
+
+
+def walk(c: dict, pools: dict, max_transitions=10**7, body_max=2):
+    """BFS on real Stream objects, one edge per public call. Returns (idle state keys, transitions [{id, from, ops, rows, to}])."""
+    ptype = c["PType"]
+    calls = calls_of(c, pools, body_max)
+    sub = writer.Subst()
     # real term objects, one per model term, so that repeated_terms can be mapped back
     objs = {}
     back = {}
@@ -67,7 +86,7 @@ def walk(c: dict, pools: dict, max_transitions=10**7):
     def obj(t):
         k = json.dumps(t)
         if k not in objs:
-            o = writer.to_impl_term(writer.abs_term(t, writer.Subst()), "generic")
+            o = writer.to_impl_term(writer.abs_term(t, sub), "generic")
             objs[k] = o
             back[id(o)] = t
         return objs[k]
@@ -80,24 +99,42 @@ def walk(c: dict, pools: dict, max_transitions=10**7):
         nxt = []
         for st0 in queue:
             k0 = key_of(st0, c, back)
-            for stt in statements:
+            for ops in calls:
                 s2 = copy.deepcopy(st0)
                 # the deep copy duplicated the term objects held in repeated_terms: point them back at the shared ones
                 s2.repeated_terms = list(st0.repeated_terms)
                 before = len(s2.flow)
+                frames = []
+                raised = None
                 try:
-                    tt = [obj(t) for t in stt]
-                    fr = s2.quad(tt) if ptype == 2 else s2.triple(tt)
-                except Exception:  # noqa: BLE001  (statement refused: not a transition; the model has CheckFits)
-                    continue
-                rows_pb = (list(fr.rows)[before:] + list(s2.flow)) if fr is not None else list(s2.flow)[before:]
-                rows = [wire.dec_row(r.SerializeToString(deterministic=True)) for r in rows_pb]
-                k2 = key_of(s2, c, back)
-                trans.append({"id": len(trans), "from": k0, "st": list(stt), "rows": rows, "to": k2})
-                ck = canon(k2)
-                if ck not in seen:
-                    seen[ck] = s2
-                    nxt.append(s2)
+                    first = ops[0]
+                    if first["op"] == "ns":
+                        label, p, n = first["ns"]
+                        s2.namespace_declaration(sub.o(label), sub.iri(p, n))
+                    elif first["op"] == "gs":
+                        body = [[obj(t) for t in o["st"]] for o in ops[1:-1]]
+                        for fr in s2.graph(obj(first["g"]), iter(body)):
+                            frames.append(fr)
+                    else:
+                        st = first["st"][: first["st"].index(["end"])] if ["end"] in first["st"] else first["st"]   # malformed tuple: ends early
+                        tt = [obj(t) for t in st]
+                        fr = s2.quad(tt) if ptype == 2 else s2.triple(tt)
+                        if fr is not None:
+                            frames.append(fr)
+                except Exception as ex:  # noqa: BLE001  (refused: in the model the stream is failed from here on)
+                    raised = type(ex).__name__
+                rows_pb = [r for fr in frames for r in fr.rows] + list(s2.flow)
+                rows = [wire.dec_row(r.SerializeToString(deterministic=True)) for r in rows_pb[before:]]
+                if raised is not None:
+                    k2 = {"failed": True} if getattr(s2, "failed", False) else {"raised-but-usable": raised}
+                else:
+                    k2 = key_of(s2, c, back)
+                trans.append({"id": len(trans), "from": k0, "ops": ops, "rows": rows, "to": k2})
+                if raised is None:
+                    ck = canon(k2)
+                    if ck not in seen:
+                        seen[ck] = s2
+                        nxt.append(s2)
         queue = nxt
     return set(seen), trans
 
@@ -107,12 +144,12 @@ def judge_transitions(c: dict, trans, chunk=6000, timeout=900):
     from concurrent.futures import ThreadPoolExecutor  # noqa: PLC0415
 
     chunks = [trans[i:i + chunk] for i in range(0, len(trans), chunk)]
-    cc = dict(c, HistLen=1)
+    cc = dict(c, HistLen=max(len(t["ops"]) for t in trans), AllowReject=True)
 
     def one(ch):
         path = os.path.join(env.workdir(), f"wg-{os.getpid()}-{ch[0]['id']}.json")
         with open(path, "w") as f:
-            json.dump([{"id": t["id"], "from": t["from"], "st": t["st"]} for t in ch], f)
+            json.dump([{"id": t["id"], "from": t["from"], "ops": t["ops"]} for t in ch], f)
         cfg = cfg_text(cc, ("Report",)).replace("SPECIFICATION Spec", "INIT TInit\nNEXT TNext")
         r = tlc.run("MCTraceWriter", cfg, workers=2, timeout=timeout, env_extra={"TRACE_FILE": path},
                     module_text=open(os.path.join(env.SPEC, "MCWriter.tla")).read().replace("MODULE MCWriter", "MODULE MCTraceWriter").replace("EXTENDS PyWriter", "EXTENDS TraceWriter"))
